@@ -158,6 +158,11 @@ class Machine:
         self.slots.append(slot)
         return slot
 
+    def readd_same(self, slot):
+        """remove_indicator followed by add_indicator of the very SAME Indicator object."""
+        self.run.call(self.n_candles() * 4, self.subject.remove_indicator, slot.name)
+        self.run.call(self.n_candles() * 4, self.subject.add_indicator, slot.ind)
+
     def remove(self, slot):
         self.run.call(self.n_candles() * 4, self.subject.remove_indicator, slot.name)
         slot.registered = False
